@@ -455,7 +455,7 @@ def build_unit(repo: Path, template: Path, checks=False, defs=None):
             item = item[1:-1]
         name = kv["name"]
         occ = int(kv.get("occurrence", "1"))
-        sig, specs, loops, proofs, repls, prologue, loopends, repls_re, insts, epilogue, attrs, sigdrops = None, [], {}, [], [], [], {}, [], [], [], [], []
+        sig, specs, loops, proofs, repls, prologue, loopends, repls_re, insts, epilogue, attrs, sigdrops, callsubs = None, [], {}, [], [], [], {}, [], [], [], [], [], []
         i += 1
         while not lines[i].strip().startswith("//@END"):
             l = lines[i].strip()
@@ -478,6 +478,9 @@ def build_unit(repo: Path, template: Path, checks=False, defs=None):
             elif l.startswith("//@SIGDROP"):
                 # text dropped from the real signature before it is compared with //@SIG (e.g. a marker type parameter)
                 sigdrops.append(re.match(r"//@SIGDROP\s+<<(.*?)>>", l).group(1))
+            elif l.startswith("//@CALLSUB"):
+                m = re.match(r"//@CALLSUB\s+<<(.*?)>>\s*=>\s*<<(.*?)>>", l)
+                callsubs.append((m.group(1), m.group(2)))
             elif l.startswith("//@ATTR"):
                 attrs.append(l[len("//@ATTR"):].strip())
             elif l.startswith("//@EPILOGUE"):
@@ -515,6 +518,28 @@ def build_unit(repo: Path, template: Path, checks=False, defs=None):
         if norm_params(real_sig) != norm_params(sig):
             raise ExtractError(f"signature drift for {file}::{name}: real `{norm_params(real_sig)}` vs contract `{norm_params(sig)}`")
         body = global_rewrites(body, checks, log)
+        for fn_name, new in callsubs:
+            # replace every call `fn_name(<balanced arguments>)` (e.g. the construction of an error value) by `new`
+            cnt = 0
+            while True:
+                k = body.find(fn_name + "(")
+                if k < 0:
+                    break
+                ob = k + len(fn_name)
+                depth, e = 0, ob
+                while True:
+                    ch = body[e]
+                    if ch == "(":
+                        depth += 1
+                    elif ch == ")":
+                        depth -= 1
+                        if depth == 0:
+                            break
+                    e += 1
+                body = body[:k] + new + body[e + 1:]
+                cnt += 1
+            if cnt:
+                log.append(f"call substitution: `{fn_name}(..)` -> `{new}` ({cnt}x; arguments dropped: message text only)")
         for old, new in insts:
             if old in body:
                 body = body.replace(old, new)
